@@ -411,7 +411,7 @@ Proof.
         { rewrite !F_app. unfold F at 2. cbn [filter]. rewrite O0. rewrite !app_length. simpl.
           assert (In (AT t) (F p0 (map AT (gbuf s)))) by (apply filter_In; split; [apply in_map; exact M|exact O0]).
           destruct (F p0 (map AT (gbuf s))); [destruct H0|simpl; lia]. }
-        destruct H as [? A2|c ? A2|c ? A2|c ? A2|c ? A2]; apply Permutation_length in A2; simpl in A2; lia.
+        destruct H as [? A2|c ? A2|c ? A2|c ? A2|c ? A2]; apply Permutation_length in A2; cbn [length] in A2; lia.
       - rewrite E0. apply Permutation_app_head. simpl.
         apply Permutation_sym. etransitivity; [apply Permutation_app_head; apply Permutation_map; exact BA|].
         simpl. apply Permutation_sym. apply Permutation_middle. }
@@ -451,9 +451,9 @@ Proof.
   exists p0. pose proof (r_ph s I p0 Hp0) as H. unfold ph in H.
   assert (PF : Permutation (F p0 (gqin s ++ gqA s ++ map AT (gbuf s)))
                            (AT t :: F p0 (gqin s ++ gqA s ++ map AT buf'))).
-  { etransitivity; [apply filter_perm; apply Permutation_app_head; apply Permutation_app_head; apply Permutation_map; exact P|].
-     simpl. rewrite !F_app. unfold F at 3. cbn [filter]. rewrite O0. fold (F p0 (map AT buf')).
-     rewrite !app_assoc. apply Permutation_sym. apply Permutation_middle. }
+  { assert (PB : Permutation (F p0 (map AT (gbuf s))) (AT t :: F p0 (map AT buf'))).
+    { etransitivity; [apply filter_perm; apply Permutation_map; exact P|]. cbn [map filter]. rewrite O0. apply Permutation_refl. }
+    rewrite !F_app, PB. rewrite !app_assoc. apply Permutation_sym. apply Permutation_middle. }
   unfold retag_l.
   destruct H as [A1 A2 A3 A4 A5|c A1 A2|c A1 A2|c A1 A2 A3 A4 A5 A6|c A1 A2].
   - rewrite PF in A2. apply perm_single in A2. injection A2 as -> Z.
@@ -497,8 +497,9 @@ Proof.
       pose proof (r_ph s I p Hp) as H. unfold ph in H.
       unfold F at 3. cbn [filter]. rewrite (X2 j). rewrite app_nil_r.
       eapply phc_perm; [|apply Permutation_refl|exact H].
-      etransitivity; [apply filter_perm; apply Permutation_app_head; apply Permutation_app_head; apply Permutation_map; exact P|].
-      simpl. rewrite !F_app. unfold F at 3. cbn [filter]. rewrite Oa. apply Permutation_refl.
+      assert (PB : Permutation (F p (map AT (gbuf s))) (F p (map AT buf'))).
+      { etransitivity; [apply filter_perm; apply Permutation_map; exact P|]. cbn [map filter]. rewrite Oa. apply Permutation_refl. }
+      rewrite !F_app, PB. apply Permutation_refl.
   - cbn [gqin gqA gqB gqFb gbuf]. rewrite Er. cbn [snd]. intros t' H. inapp.
     destruct H as [H|[H|[H|[[H|[H|[]]]|H]]]].
     + apply (r_own s I). inapp. auto.
@@ -510,6 +511,206 @@ Proof.
     + apply (r_own s I). inapp. auto 6.
   - cbn [gimap]. rewrite Er. cbn [fst]. intros k0 Hk. cbn [tget] in Hk.
     destruct (tag_dec k0 p0) as [->|]; [exact Hp0|apply (r_imap s I); exact Hk].
+Qed.
+
+Hypothesis Hnd : NoDup insts.
+
+Lemma F_insts p l : NoDup l -> (forall x, In x l -> In x insts) -> In p insts ->
+  F p (map AT l) = if in_dec tag_dec p l then [AT p] else [].
+Proof.
+  intros Hn Hl Hp. induction l as [|x l IH]; [reflexivity|].
+  inversion Hn as [|? ? Hnin Hn']; subst. simpl map. unfold F. cbn [filter]. fold (F p (map AT l)).
+  rewrite IH by (auto; intros y Hy; apply Hl; right; exact Hy).
+  destruct (tag_dec x p) as [->|Hne].
+  - rewrite own_self. destruct (in_dec tag_dec p (p :: l)) as [_|N]; [|exfalso; apply N; left; reflexivity].
+    destruct (in_dec tag_dec p l); [contradiction|reflexivity].
+  - destruct (own_other p x Hp (Hl x (or_introl eq_refl))) as [X _]; [congruence|]. rewrite X.
+    destruct (in_dec tag_dec p l) as [i|n]; destruct (in_dec tag_dec p (x :: l)) as [i'|n']; try reflexivity.
+    + exfalso. apply n'. right. exact i.
+    + exfalso. destruct i' as [E0|i']; [congruence|contradiction].
+Qed.
+
+Lemma inv3_init : Inv3 (ginit RS rinit insts).
+Proof.
+  constructor; simpl.
+  - intros p Hp. unfold ph, eside, hist. simpl. rewrite app_nil_r, F_app.
+    rewrite (F_insts p insts Hnd (fun x H => H) Hp).
+    destruct (in_dec tag_dec p insts); [|contradiction]. apply CU; auto.
+  - intros t H. rewrite !app_nil_r in H. apply in_app_iff in H. destruct H as [H|[H|[]]]; [|discriminate].
+    apply in_map_iff in H. destruct H as (x & E0 & Hx). injection E0 as ->. exists t. split; [exact Hx|apply own_self].
+  - intros k H. exfalso. apply H. reflexivity.
+  - intros a [].
+  - left. unfold hist. simpl. repeat split; auto.
+  - discriminate.
+  - reflexivity.
+  - reflexivity.
+Qed.
+
+Lemma inv3_step s s' : Inv3 s -> gstep RS rstep cont s s' -> Inv3 s'.
+Proof.
+  intros I H. destruct H.
+  - apply inv3g_Fin; assumption.
+  - eapply inv3g_Cread; eassumption.
+  - apply inv3g_Cjoin; assumption.
+  - apply inv3g_Cterm; assumption.
+  - apply inv3g_W; assumption.
+  - apply inv3g_Fout; assumption.
+  - apply inv3g_Fback; assumption.
+  - apply inv3g_L; assumption.
+  - apply inv3g_Tread; assumption.
+  - apply inv3g_Temit; assumption.
+  - apply inv3g_Tterm; assumption.
+Qed.
+
+Lemma inv3_reach s : rreach s -> Inv3 s.
+Proof. induction 1; [apply inv3_init|eapply inv3_step; eauto]. Qed.
+
+(* ------------------------------------------------------------------ assembling the end-to-end statement *)
+Lemma preb_unique p p' a : preb p a = true -> preb p' a = true -> p = p'.
+Proof.
+  destruct a as [t|t| |]; simpl; try discriminate;
+    destruct (tag_dec (pre t) p); destruct (tag_dec (pre t) p'); try discriminate; congruence.
+Qed.
+
+Lemma perm_partition (l : list tag) (X : tag -> list atok) : forall h,
+  NoDup l -> (forall p, In p l -> Permutation (E p h) (X p)) ->
+  (forall a, In a h -> exists p, In p l /\ preb p a = true) ->
+  Permutation h (concat (map X l)).
+Proof.
+  induction l as [|p0 l IH]; intros h Hn H1 H2.
+  - destruct h as [|a h]; [constructor|]. destruct (H2 a (or_introl eq_refl)) as (p & [] & _).
+  - inversion Hn as [|? ? Hnin Hn']; subst. simpl.
+    rewrite (filter_split_perm (preb p0) h). apply Permutation_app; [apply H1; left; reflexivity|].
+    apply IH; auto.
+    + intros p Hp. unfold E. rewrite filter_filter_sub; [apply H1; right; exact Hp|].
+      intros x Hx. destruct (preb p0 x) eqn:B; [|reflexivity].
+      exfalso. apply Hnin. rewrite (preb_unique p0 p x B Hx). exact Hp.
+    + intros a Ha. apply filter_In in Ha. destruct Ha as [Ha Hneg].
+      destruct (H2 a Ha) as (p & [<-|Hp] & B); [rewrite B in Hneg; discriminate|]. exists p. split; assumption.
+Qed.
+
+Lemma concat_perm {A B} (f g : A -> list B) l :
+  (forall x, In x l -> Permutation (f x) (g x)) -> Permutation (concat (map f l)) (concat (map g l)).
+Proof.
+  induction l as [|x l IH]; intros H; simpl; [constructor|].
+  apply Permutation_app; [apply H; left; reflexivity|apply IH; intros y Hy; apply H; right; exact Hy].
+Qed.
+
+(* the iterations of instance p, as the tokens the loop output step receives *)
+Definition iters (p : tag) (k : nat) : list tok :=
+  map (fun j => Tok (render (itag p j)) (val (itag p j))) (seq 0 k).
+
+Lemma iters_ok p k : p <> [] -> inst_ok (p, iters p k).
+Proof.
+  intros Hp. split; [exact Hp|]. unfold elems_ok, tags_from, iters. simpl.
+  rewrite map_map, map_length, seq_length. reflexivity.
+Qed.
+
+Lemma conv_X p k :
+  Permutation (map conv (iter_toks p k ++ [AI (itag p k)])) (liarr (p, iters p k)).
+Proof.
+  unfold liarr, linst_arrivals, iters, iter_toks. simpl. rewrite map_app, !map_map, map_length, seq_length. simpl.
+  apply Permutation_sym. apply Permutation_cons_append.
+Qed.
+
+Definition kof (s : rnet) (p : tag) : nat := match tget p (gimap s) with Some n => N.to_nat n | None => 0 end.
+
+Lemma ph_decided p s t :
+  ph p s -> In (AI t) (E p (eside s)) ->
+  t = itag p (kof s p) /\ Permutation (E p (eside s)) (iter_toks p (kof s p) ++ [AI (itag p (kof s p))]) /\
+  (forall j, j < kof s p -> cont (itag p j) = true) /\ cont (itag p (kof s p)) = false.
+Proof.
+  intros H Hin. unfold ph in H.
+  assert (NoAI : forall c, ~ In (AI t) (iter_toks p c)).
+  { intros c X. unfold iter_toks in X. apply in_map_iff in X. destruct X as (j & X & _). discriminate. }
+  destruct H as [A1 A2 A3 A4 A5|c A1 A2 A3 A4 A5 A6|c A1 A2 A3 A4 A5 A6|c A1 A2 A3 A4 A5 A6|c A1 A2 A3 A4 A5 A6 A7].
+  - apply perm_nil_eq in A5. rewrite A5 in Hin. destruct Hin.
+  - exfalso. apply (NoAI c). eapply Permutation_in; eauto.
+  - exfalso. apply (NoAI (S c)). eapply Permutation_in; eauto.
+  - exfalso. apply (NoAI (S c)). eapply Permutation_in; eauto.
+  - assert (K : kof s p = c) by (unfold kof; rewrite A1; apply Nat2N.id). rewrite K.
+    split; [|auto]. eapply Permutation_in in Hin; [|exact A5]. apply in_app_iff in Hin.
+    destruct Hin as [Hin|[Hin|[]]]; [exfalso; apply (NoAI c); exact Hin|]. injection Hin as <-. reflexivity.
+Qed.
+
+Lemma nodup_render (l : list tag) : NoDup l -> (forall x, In x l -> x <> []) -> NoDup (map render l).
+Proof.
+  induction l as [|x l IH]; intros Hn Hne; simpl; constructor.
+  - inversion Hn; subst. intros Hin. apply in_map_iff in Hin. destruct Hin as (y & E0 & Hy).
+    apply render_inj in E0; [subst; contradiction|apply Hne; right; exact Hy|apply Hne; left; reflexivity].
+  - inversion Hn; subst. apply IH; auto. intros y Hy. apply Hne. right. exact Hy.
+Qed.
+
+Theorem loop_network s :
+  rreach s ->
+  (* (a) until L has taken the termination token it has not terminated *)
+  (glgot s = false -> lfinal (fst (gls s)) = None) /\
+  (* (b) once it has: every instance ran its body while the condition held, and L has gemitted exactly one output
+         per instance -- the iteration values in iteration order / the last one -- and then terminated *)
+  (glgot s = true ->
+     let k := kof s in
+     (forall p, In p insts -> (forall j, j < k p -> cont (itag p j) = true) /\ cont (itag p (k p)) = false) /\
+     Permutation (lout (fst (gls s))) (map (fun p => lexpected pol (p, iters p (k p))) insts) /\
+     lfinal (fst (gls s)) = Some (match insts with [] => Skipped | _ => Completed end)).
+Proof.
+  intros R. pose proof (inv3_reach s R) as I3.
+  assert (Hne : forall p, In p insts -> p <> []).
+  { intros p Hp E0. pose proof (Hinsts p Hp) as L. rewrite E0 in L. simpl in L. lia. }
+  split.
+  - intros G. rewrite (r_h0 s I3). apply loop_run_no_term.
+    intros a Ha. apply in_map_iff in Ha. destruct Ha as (b & <- & Hb).
+    assert (Hb' : In b (eside s)) by (unfold eside; apply in_or_app; left; exact Hb).
+    destruct (r_eside s I3 b Hb') as [->|(p & _ & B)].
+    + exfalso. destruct (r_t s I3) as [(_ & _ & _ & C)|[(_ & _ & _ & C)|[(_ & _ & _ & C)|(W & A & B & LG & _)]]];
+        try (apply C; exact Hb). congruence.
+    + destruct b; simpl in B; try discriminate; simpl; discriminate.
+  - intros G k.
+    pose proof (invg_reach RS rstep rinit cont insts d Hd Hinsts s R) as I.
+    assert (Em : forall p, In p insts -> In p (gemitted s)).
+    { apply (no_early_exit_g RS rstep rinit cont insts d Hd Hinsts s R). left. exact G. }
+    pose proof (r_lgot s I3 G) as HT.
+    destruct (r_t s I3) as [(_ & _ & _ & C)|[(_ & _ & _ & C)|[(_ & _ & _ & C)|(W & QF & QE & _ & (h & Eh & Hh))]]];
+      try contradiction.
+    assert (ES : eside s = h ++ [ATerm]) by (unfold eside; rewrite QF, QE, !app_nil_r; exact Eh).
+    (* every instance is decided *)
+    assert (Dec : forall p, In p insts ->
+              Permutation (E p h) (iter_toks p (k p) ++ [AI (itag p (k p))]) /\
+              (forall j, j < k p -> cont (itag p j) = true) /\ cont (itag p (k p)) = false).
+    { intros p Hp. pose proof (Em p Hp) as He. rewrite (r_em s I3) in He.
+      apply in_map_iff in He. destruct He as (o & Eo & Ho).
+      rewrite (r_h0 s I3) in Ho. destruct (loop_run_sized pol (map conv (hist s))) as [_ S2].
+      destruct (S2 o Ho) as (tg & Htg & Etg).
+      apply in_map_iff in Htg. destruct Htg as (a & Ea & Ha).
+      destruct a as [t0|t| |]; simpl in Ea; try discriminate. injection Ea as <-.
+      assert (Ha' : In (AI t) (eside s)) by (unfold eside; apply in_or_app; left; exact Ha).
+      destruct (r_eside s I3 _ Ha') as [X|(p' & Hp' & B)]; [discriminate|].
+      assert (Hin : In (AI t) (E p' (eside s))) by (apply filter_In; split; assumption).
+      destruct (ph_decided p' s t (r_ph s I3 p' Hp') Hin) as (Et & P1 & P2 & P3).
+      assert (p' = p).
+      { rewrite Et in Etg. unfold itag in Etg. rewrite drop_last_render in Etg by (apply Hne; exact Hp').
+        rewrite <- Etg, parse_render in Eo by (apply Hne; exact Hp'). exact Eo. }
+      subst p'. split; [|split; assumption].
+      rewrite ES in P1. unfold E in P1. rewrite filter_app in P1. simpl in P1. rewrite app_nil_r in P1. exact P1. }
+    split; [intros p Hp; destruct (Dec p Hp) as (_ & D2 & D3); split; assumption|].
+    set (insts' := map (fun p => (p, iters p (k p))) insts).
+    assert (Hok : Forall inst_ok insts').
+    { apply Forall_forall. intros i Hi. apply in_map_iff in Hi. destruct Hi as (p & <- & Hp). apply iters_ok. apply Hne. exact Hp. }
+    assert (Hnd' : NoDup (map ikey insts')).
+    { unfold insts'. rewrite map_map. unfold ikey. simpl. apply nodup_render; assumption. }
+    assert (Hperm : Permutation (map conv h) (all_larr insts')).
+    { assert (P0 : Permutation h (concat (map (fun p => iter_toks p (k p) ++ [AI (itag p (k p))]) insts))).
+      { apply perm_partition; auto.
+        - intros p Hp. apply (Dec p Hp).
+        - intros a Ha. assert (Ha' : In a (eside s)) by (rewrite ES; apply in_or_app; left; exact Ha).
+          destruct (r_eside s I3 a Ha') as [->|X]; [contradiction|exact X]. }
+      rewrite P0. unfold all_larr, insts'. rewrite map_map. rewrite concat_map, map_map.
+      apply concat_perm. intros p _. apply conv_X. }
+    destruct (loop_step_thm pol insts' (map conv h) Hok Hnd' Hperm) as (_ & _ & T3 & T4).
+    assert (EL : fst (gls s) = loop_run pol (map conv h ++ [LTerm Completed])).
+    { rewrite (r_h0 s I3), Eh, map_app. reflexivity. }
+    rewrite EL. split.
+    + rewrite T3. unfold insts'. rewrite map_map. apply Permutation_refl.
+    + rewrite T4. unfold insts'. destruct insts; reflexivity.
 Qed.
 
 End Real.
